@@ -234,13 +234,23 @@ class AstExport:
         return f'(mkFunc {args} {copt(c, ctx_term)} {self.block(fd.body)})'
 
 
+def is_copy_stmt(s):
+    """A statement whose compiled form does not depend on the active context: a variable copy, a tuple of
+    variables (the prologue / epilogue the bundling passes put around a body), `pass`."""
+    from fpy2.ast import fpyast as A
+
+    def plain(e):
+        return isinstance(e, A.Var) or (isinstance(e, A.TupleExpr) and all(plain(x) for x in e.elts))
+    return isinstance(s, A.PassStmt) or (isinstance(s, A.Assign) and plain(s.expr))
+
+
 def stmt_after_with(block):
-    """Does some statement follow a `with` inside its own block (post-pass AST)?"""
+    """Does some statement other than a variable copy follow a `with` inside its own block (post-pass AST)?"""
     from fpy2.ast import fpyast as A
     ss = block.stmts
     for i, s in enumerate(ss):
         if isinstance(s, A.ContextStmt):
-            if i + 1 < len(ss) or stmt_after_with(s.body):
+            if any(not is_copy_stmt(t) for t in ss[i + 1:]) or stmt_after_with(s.body):
                 return True
         elif isinstance(s, A.IfStmt):
             if stmt_after_with(s.ift) or stmt_after_with(s.iff):
@@ -403,7 +413,6 @@ CTX_POOL = [
     ('fp.FP64', 3), ('fp.FP32', 4), ('fp.FP16', 2),
     ('fp.IEEEContext(8, 32, fp.RM.RTZ)', 2), ('fp.IEEEContext(11, 64, fp.RM.RTP)', 1),
     ('fp.IEEEContext(5, 16, fp.RM.RAZ)', 1), ('fp.IEEEContext(8, 32, fp.RM.RNA)', 1),
-    ('fp.IEEEContext(4, 12, fp.RM.RTN)', 1),
 ]
 LITS = ['0.1', '1.5', '3', '0.7', '2', '0.25', '10', '1.1', '7', '0.001']
 
@@ -533,7 +542,7 @@ class ProgGen:
             elif kind == 'for':
                 v = self.r.choice(vs)
                 i = self.fresh()
-                out.append(f'{ind}for {i} in range({self.r.randint(0, 3)}):')
+                out.append(f'{ind}for {i} in range({self.r.randint(1, 3)}):')
                 out += self.compute(ind + '    ', vs + [i], v,
                                     lambda w: f'({v} {self.r.choice("+-*")} {self.expr(w, 1)})', depth)
             else:
@@ -650,6 +659,55 @@ def guarded(f):
         return ('err', type(e).__name__)
 
 
+def coq_eval2(ck, terms, chunk=300, timeout=900, jobs=16):
+    """One Coq run per shard deciding both `check12_sound` and `check12_coded` (own variant of
+    Check.coq_eval_mismatches, which decides one function per run).  Returns (bad_sound, bad_coded, err)."""
+    import re
+    from ..common import sh, COQ
+    shards = []
+    for si in range(0, len(terms), chunk):
+        part = terms[si:si + chunk]
+        name = f'cases_{si // chunk:04d}'
+        body = ';\n'.join(f'({si + j}%nat, {c})' for j, c in enumerate(part))
+        text = (HEADER + '\n'
+                f'Definition cases : list (nat * case12) := [\n{body}\n].\n'
+                'Definition bad_sound := map fst (filter (fun ic => negb (check12_sound (snd ic))) cases).\n'
+                'Definition bad_coded := map fst (filter (fun ic => negb (check12_coded (snd ic))) cases).\n'
+                'Eval vm_compute in (bad_sound, bad_coded).\n')
+        (ck.dir / f'{name}.v').write_text(text)
+        shards.append(name)
+    if not shards:
+        return [], [], None
+    cmd = (f"xargs -P{jobs} -I{{}} sh -c 'timeout {timeout} coqc -noglob -Q {COQ} FpyV -Q . Dyn {{}}.v > {{}}.out 2>&1 "
+           f"|| echo FAIL >> {{}}.out'")
+    sh(cmd, cwd=ck.dir, input='\n'.join(shards), timeout=timeout * (len(shards) // jobs + 1) + 60)
+    ck.checker_cmds.append(f'coqc -Q coq FpyV build/{ck.pid}/cases_*.v  # vm_compute of check12_sound / check12_coded')
+    bs, bc, err = [], [], None
+
+    def nums(t):
+        t = t.strip()
+        return [int(x.replace('%nat', '').strip()) for x in t.split(';')] if t else []
+    for name in shards:
+        out = (ck.dir / f'{name}.out').read_text()
+        m = re.search(r'=\s*\(\[(.*?)\],\s*\[(.*?)\]\)\s*:\s*list nat \* list nat', out, re.S)
+        if 'FAIL' in out or not m:
+            err = (err or '') + f'{name}: {out[-500:]}\n'
+            continue
+        bs += nums(m.group(1))
+        bc += nums(m.group(2))
+    return sorted(bs), sorted(bc), err
+
+
+def gensym_reused_a_name(core):
+    """Did the frontend's Gensym hand out a name twice while reading `core`?  (direct observation of the
+    stale-hash defect on the implementation, for cores outside the modelled reading subset)"""
+    from fpy2.frontend.fpc import _FPCore2FPy
+    conv = _FPCore2FPy(core, 'f')
+    conv.convert()
+    names = [str(i) for i in conv.gensym._idents]
+    return len(set(names)) < len(names)
+
+
 def run(ck):
     import fpy2 as fp
     from fpy2 import FPCoreCompiler, Function, FPCoreContext, NoSuchContextError
@@ -701,8 +759,8 @@ def run(ck):
             # the integer contexts are INTEGER with another rounding mode (its other parameters are not modelled)
             ctxs.append(fp.INTEGER.with_params(rm=rm) if nmin == -1 else MPFixedContext(nmin, rm))
     for signed in (True, False):
-        for scale in (-2, 0, 3, 8, 16):
-            for nb in (2, 8, 16):
+        for scale in ((-2, 0, 3, 8, 16) if thorough else (-2, 0, 8)):
+            for nb in ((2, 8, 16) if thorough else (2, 8)):
                 for rm in (rms if thorough else [RM.RNE, RM.RTZ, RM.RAZ, RM.RTO]):
                     for ov in ovs:
                         ctxs.append(FixedContext(signed, scale, nb, rm, ov))
@@ -742,7 +800,8 @@ def run(ck):
     ovns = [None, 'wrap', 'clamp', 'infinity', 'bogus']
     for pr in precs:
         for rd in rnds:
-            for ov in ovns:
+            # the overflow property is read for fixed-point precisions only
+            for ov in (ovns if (thorough or (isinstance(pr, list) and pr[0] == 'fixed')) else [None, 'clamp']):
                 d = {}
                 if pr is not None:
                     d['precision'] = pr
@@ -764,6 +823,7 @@ def run(ck):
                 ck.count('to_context')
                 ck.nontriv(('to', t))
 
+    ck.log(f'{len(cases)} context cases')
     # ------------------------------------------------------------------ programs
     progdir = ck.dir / 'progs'
     progdir.mkdir(parents=True, exist_ok=True)
@@ -853,11 +913,14 @@ def run(ck):
             ck.sample(f'(KCompile {fterm} {copt(cterm, str)})')
 
         # ---- re-read the printed core
-        reread, ri = None, None
+        reread, ri, dup = None, None, False
         try:
             core2 = fpcparser.compile(core.sexp)[0]
             reread = Function.from_fpcore(core2)
             ri = read_case(core2, info)
+            dup = gensym_reused_a_name(core2)
+            if dup:
+                ck.count('re-read: Gensym handed out a name twice')
         except Exception as e:  # noqa
             ck.violation('Function.from_fpcore raised on a core the backend emitted',
                          {'source': src, 'core': core.sexp, 'error': repr(e)[:300]})
@@ -876,19 +939,19 @@ def run(ck):
             rep = {'source': src, 'core': core.sexp, 'args': [a.hex() for a in args], 'stmt_after_with': after}
             if want != got_core:
                 pending.append(('fpy2 interpreter and titanfp on the compiled core disagree',
-                                dict(rep, interpreter=want, titanfp=got_core), 'compile', ci, ri, after))
+                                dict(rep, interpreter=want, titanfp=got_core), 'compile', ci, ri, after, dup))
             if reread is not None:
                 got_re = guarded(lambda: reread(*args))
                 ck.evaluations += 1
                 ck.count('behavioural: re-read function vs titanfp')
                 if got_re != got_core:
                     pending.append(('the function read back from the core and titanfp on the core disagree',
-                                    dict(rep, reread=got_re, titanfp=got_core), 'read', ci, ri, after))
+                                    dict(rep, reread=got_re, titanfp=got_core, gensym_reused_a_name=dup), 'read', ci, ri, after, dup))
                 if got_re != want:
                     # compile o read changed the behaviour; the compile half is the culprit iff titanfp agrees with the re-read function
                     pending.append(('compiling and re-reading a function changed its behaviour',
                                     dict(rep, interpreter=want, reread=got_re),
-                                    'compile' if got_re == got_core else 'read', ci, ri, after))
+                                    'compile' if got_re == got_core else 'read', ci, ri, after, dup))
 
     # ------------------------------------------------------------------ hand-written cores for the reading direction
     READ_CORES = [
@@ -905,6 +968,7 @@ def run(ck):
             core2 = fpcparser.compile(src)[0]
             ri = read_case(core2, {'core': src})
             g = Function.from_fpcore(core2)
+            dup = gensym_reused_a_name(core2)
             for _ in range(4):
                 args = [rng.choice(pool), rng.choice(pool)]
                 a = guarded(lambda: g(*args))
@@ -913,8 +977,8 @@ def run(ck):
                 ck.count('behavioural: re-read function vs titanfp')
                 if a != b:
                     pending.append(('the function read from a core and titanfp on the core disagree',
-                                    {'core': src, 'args': [v.hex() for v in args], 'reread': a, 'titanfp': b},
-                                    'read', None, ri, False))
+                                    {'core': src, 'args': [v.hex() for v in args], 'reread': a, 'titanfp': b,
+                                     'gensym_reused_a_name': dup}, 'read', None, ri, False, dup))
         except Exception:  # noqa
             ck.violation('reading a core of the modelled subset failed', {'core': src, 'error': traceback.format_exc()[-400:]})
 
@@ -927,17 +991,15 @@ def run(ck):
                'program / context / dictionary / (program, arguments)')
     ck.exhaustive = False
     terms = [c[1] for c in cases]
-    ck.log(f'{len(terms)} structural cases ({len(progs)} programs)')
-    bad_fixed, err1 = ck.coq_eval_mismatches(HEADER, 'case12', terms, 'check12_sound', chunk=120, tag='sound')
-    bad_coded, err2 = ck.coq_eval_mismatches(HEADER, 'case12', terms, 'check12_coded', chunk=120, tag='coded')
-    for err in (err1, err2):
-        if err:
-            ck.broken.append('correspondence evaluation failed: ' + err[:600])
+    ck.log(f'{len(terms)} structural cases ({len(progs)} programs), {len(pending)} behavioural disagreements to classify')
+    bad_fixed, bad_coded, err = coq_eval2(ck, terms)
+    if err:
+        ck.broken.append('correspondence evaluation failed: ' + err[:600])
     bad_coded = set(bad_coded)
     bad_sound = set(bad_fixed)
     known_shape = bad_sound - bad_coded     # output equals the model of the code as it is, and no theorem covers it
 
-    for what, rep, blame, ci, ri, after in pending:
+    for what, rep, blame, ci, ri, after, dup in pending:
         key = None
         if blame == 'compile':
             # the recorded defect: a statement after an inner `with`, and (when the program is inside the
@@ -945,7 +1007,10 @@ def run(ck):
             if after and (ci is None or ci in known_shape):
                 key = KEY_WITH
         else:
-            if ri is not None and ri in known_shape:
+            # the recorded Gensym defect: the frontend's output is exactly the one the model of the code as
+            # it is predicts (and differs from the sound one), or — outside the modelled reading subset —
+            # the real Gensym was observed handing out a name twice
+            if (ri in known_shape) if ri is not None else dup:
                 key = KEY_GENSYM
         ck.violation(what, rep, key=key)
 
